@@ -683,6 +683,8 @@ def crc_items(tier):
             items.append(('crc', 'tx', which, code))
     for k in range(0, len(sels), 8):
         items.append(('crc', 'route', tuple(sels[k:k + 8])))
+    for drv in ('pn533', 'pn532', 'rcs380'):
+        items.append(('crc', 'route2', drv))
     return items
 
 
@@ -737,6 +739,8 @@ def crc_dispatch(run, item):
         work_crc_tx(run, item[2], item[3])
     elif item[1] == 'route':
         work_crc_route(run, item[2])
+    elif item[1] == 'route2':
+        work_crc_route2(run, item[2])
     else:
         work_crc_flips(run, *item[2:])
 
@@ -897,6 +901,61 @@ def work_crc_route(run, sel_values):
                 else:
                     run.ok(key=key)
             run.count('crc_route_targets')
+
+
+def work_crc_route2(run, drv):
+    """Two Type A targets one after the other on ONE device object: what the
+    driver set up for the first (chip CRC check off, verification in the
+    driver) must not leak into the exchange with the second."""
+    import nfc.clf
+    from sim import chipsets
+    msg = bytes(range(0x10, 0x20))
+    good = refcrc.append_a(msg)
+    vals = (0x00, 0x08, 0x18, 0x20, 0x40, 0x60)
+    for v1 in vals:
+        for v2 in vals:
+            tag = chipsets.Tag('T2')
+            tag.with_crc = True
+            sim = chipsets.Sim(drv, tag=tag)
+            clf = sim.clf()
+            ok = True
+            for step, v in enumerate((v1, v2)):
+                tag.sel_res = bytearray([v])
+                t = clf.sense(chipsets.sense_target('T2'))
+                if t is None or t.sel_res != bytearray([v]):
+                    raise RuntimeError('crc-route2: target not found %r' % t)
+                frames = (('valid', good),) if step == 0 else (
+                    ('crc-bit', flip(good, (8 * 16 + 3,))),
+                    ('data-bit', flip(good, (5,))), ('valid', good))
+                for what, frame in frames:
+                    tag.response = frame
+                    key = ('route2', drv, v1, v2, step, what)
+                    try:
+                        res = ('data', bytes(clf.exchange(b'\x30\x04', 0.1)))
+                    except nfc.clf.CommunicationError as e:
+                        res = ('error', type(e).__name__)
+                    except Exception as e:
+                        crc_fail(run, 'route2-%s(%s)' % (drv, what), frame,
+                                 repr(e), 'CommunicationError or data', key,
+                                 e)
+                        continue
+                    run.outcome(('route2', drv, v1 & 0x60, v2 & 0x60, what,
+                                 res[0]))
+                    if what == 'valid':
+                        if res[0] != 'data' or msg not in res[1]:
+                            crc_fail(run, 'route2-%s(valid frame rejected|'
+                                     'second target)' % drv, frame, res, msg,
+                                     key)
+                        else:
+                            run.ok(key=key)
+                    elif res[0] == 'data':
+                        crc_fail(run, 'route2-%s(wrong CRC_A accepted|first '
+                                 'sel_res&60=%02x,second sel_res&60=%02x)'
+                                 % (drv, v1 & 0x60, v2 & 0x60), frame, res[1],
+                                 'rejected', key)
+                    else:
+                        run.ok(key=key)
+            run.count('crc_route2_histories')
 
 
 def work_crc_tx(run, which, code):
